@@ -203,6 +203,7 @@ def run(ctx):
                 chk.violation("R03.3", "too-small", "deep->flat nesting step %d < 100: an operator of an inner group can lose against an outer one with priority up to 99" % k, loc(span))
 
     unary_kept(chk, fb)
+    converter_step(chk, fb)
 
 
 def unary_kept(chk, fb, RID="R03.5"):
@@ -269,3 +270,61 @@ def unary_kept(chk, fb, RID="R03.5"):
             chk.violation(RID, "bare:%s" % kind, "convert_node returns a %s node without its unary operators on a path that does not establish that the node's unary composition is empty: converting a flat expression whose %s node carries unary operators (operate_unary, derivatives, substitution results are not compiled again) changes its value" % (
                 kind, kind), loc(b["span"]))
     chk.floor(RID, "node kinds converted", len(kinds - {"?"}), 2)
+
+
+def converter_step(chk, fb, RID="R03.6"):
+    """R03.6: flat -> deep, per operator.  Every step of the converter's reduction loop (the loop that asks the number tracker for
+    its two operands) wraps the two operand nodes into DeepEx::new(.., the operator, the operator's OWN unary composition taken
+    from the flat operator) and stores that expression at the left operand's place.  A step that combines or stores anything
+    else (folding two literals on the spot, say) loses the unary composition the flat operator carries for its group."""
+    from analysis import rel, loops
+    from analysis.interp import Interp, Policy, Sym, show
+    chk.rule(RID, "flat -> deep: every reduction step builds DeepEx::new([left, right], operator, the flat operator's own unary composition) and stores it at the left operand")
+    cb = fb.find_bodies(lambda b: b["path"].endswith("flat::detail::flatex_to_deepex"))
+    if len(cb) != 1:
+        chk.violation(RID, "anchor", "flat::detail::flatex_to_deepex not found")
+        return
+    b = cb[0]
+
+    class P(Policy):
+        loop_mode = "widen"
+        max_depth = 3
+        try_mode = "ok_only"
+
+        def inline(self, fn, args, interp, path):
+            return False
+
+        def inline_closure(self, cp, args, interp, path):
+            return False
+    names = [b["locals"][i].get("name") or "a%d" % i for i in range(1, b["arg_count"] + 1)]
+    allp = Interp(fb, P()).run(b, [Sym(n) for n in names])
+    if any(p.status == "unrecognised" for p in allp):
+        chk.unrecognised(RID, "shape", "flatex_to_deepex: %s" % next(p.note for p in allp if p.status == "unrecognised"), loc(b["span"]))
+        return
+    n = 0
+    seen = set()
+    for p in allp:
+        for t in loops.trips(p, b["path"], 0):
+            if not t.general or t.post is None:
+                continue
+            calls = [e for e in t.events if e[0] == "call"]
+            if not any(e[1].endswith("NumberTracker::get_previous") for e in calls):
+                continue
+            sig = tuple((rel.cstr(d[1])[:100], str(d[2])) for d in t.decisions)
+            if sig in seen:
+                continue
+            seen.add(sig)
+            n += 1
+            news = [e for e in calls if re.search(r"deep::DeepEx::<.*>::new$", e[1]) and len(e[2]) == 3]
+            takes = [rel.cstr(e[2][0]) for e in calls if e[1] == "std::mem::take" and e[2]]
+            own = [x for x in takes if re.match(r"^\.unary_op\(std::ops::IndexMut::index_mut\(", x) and "Iterator::next(" in x]
+            good_new = len(news) == 1 and len(own) == 1 and ("op: std::mem::take(%s)" % own[0]) in rel.cstr(news[0][2][2])
+            stores = [e for e in t.events if e[0] == "write_opaque" and rel.cstr(e[3]).startswith("DeepNode::")]
+            good_store = len(stores) == 1 and re.match(r"^DeepNode::Expr\{0: (ok\()?expression::deep::DeepEx::<.*?>::new\(", rel.cstr(stores[0][3])) is not None
+            if not good_new:
+                chk.violation(RID, "step-unary", "a reduction step of the flat -> deep converter does not build exactly one DeepEx::new(.., the operator's own unary composition): %d new / unary taken from %s" % (len(news), own or takes[:2]), loc(b["span"]))
+            elif not good_store:
+                chk.violation(RID, "step-store", "a reduction step of the flat -> deep converter stores %s instead of the expression it built" % [rel.cstr(e[3])[:80] for e in stores][:2], loc(b["span"]))
+            else:
+                chk.ok(RID, "reduction step %d" % n, "", loc(b["span"]))
+    chk.floor(RID, "reduction steps (general trips) analysed", n, 1)
